@@ -245,7 +245,7 @@ def worker_init() -> None:
             db = odxtools.load_pdx_file(p)
             for dl in db.diag_layers:
                 layers[f"{fname.split('.')[0]}:{dl.short_name}"] = dl
-    from ..zoo.layers import MATRIX_KINDS, build_matrix_layer, build_zoo_layer
+    from ..zoo.layers import MATRIX_KINDS, build_matrix_layer, build_zoo_layer, matrix_examples
     zoo_truth: Dict[str, Dict[str, Any]] = {}
     for z in range(N_ZOO):
         layer, truth, used = build_zoo_layer(z)
@@ -253,6 +253,7 @@ def worker_init() -> None:
         zoo_truth[f"zoo:{z}"] = truth
     for kind in MATRIX_KINDS:
         layers[f"zoo:m_{kind}"] = build_matrix_layer(kind)
+        zoo_truth[f"zoo:m_{kind}"] = {"examples": matrix_examples(kind)}
     STATE["layers"] = layers
     STATE["layer_names"] = sorted(layers)
     STATE["zoo_truth"] = zoo_truth
